@@ -26,7 +26,7 @@ RULE = (
 COMPONENTS = {"real": ["spsdk.utils.registers (Registers, Register, RegsBitField, RegsEnum, config processors)", "spsdk.utils.misc value_to_int / value_to_bytes"], "stub": ["none (the device database lookup is bypassed by loading a generated specification through _load_from_spec)"]}
 ASSUMPTIONS = [
     "generated specifications follow the real ones: bit-fields partition the register, gaps are unnamed hidden fields, 'reversed' appears on group registers only",
-    "alternative widths are not value-predicted (their intended semantics are not stated by the property)",
+    "alternative widths: only the alt_set operation judges them (group zeroed first, then a value selecting one of the widths: read-back, sub-register placement, length of the bytes / hex views); the byte-reversed whole-group view of such groups is not value-predicted elsewhere",
     "negative integers are treated as values that do not fit an unsigned bit-vector",
 ]
 
@@ -87,6 +87,8 @@ def build_spec(layout: dict):
         gd = {"uid": g["uid"], "name": g["name"], "sub_regs": list(g["sub_regs"]), "reversed": bool(g.get("reversed")), "reverse_subregs_order": bool(g.get("reverse_subregs_order"))}
         if g.get("hexstring"):
             gd["config_as_hexstring"] = True
+        if g.get("alt_widths"):
+            gd["alternative_widths"] = list(g["alt_widths"])
         groups.append(gd)
     return {"groups": [{"group": {"name": "G"}, "registers": spec_regs}]}, groups
 
@@ -197,7 +199,12 @@ def compare(obj, m: Model, label: str) -> list:
     for r in m.layout["regs"]:
         reg = find_reg(obj, r["uid"])
         want = m.val[r["uid"]]
-        got = reg.get_value(raw=True)
+        try:
+            got = reg.get_value(raw=True)
+            reg.get_value(raw=False)
+        except R.SPSDKError as exc:
+            diffs.append(("register-value", f"{label}: register {r['name']} cannot be read: {type(exc).__name__}: {exc}"))
+            continue
         if got != want:
             diffs.append(("register-value", f"{label}: register {r['name']} raw value {got:#x}, model {want:#x}"))
         got2 = reg.get_value(raw=False)
@@ -212,7 +219,13 @@ def compare(obj, m: Model, label: str) -> list:
     for g in m.layout.get("groups", []):
         greg = find_reg(obj, g["uid"])
         for raw in (True, False):
-            got = greg.get_value(raw=raw)
+            if g.get("alt_widths") and not raw:
+                continue  # the width used for the byte reversal depends on the value; judged by the alt_set operation
+            try:
+                got = greg.get_value(raw=raw)
+            except R.SPSDKError as exc:
+                diffs.append(("group-view", f"{label}: group {g['name']} value(raw={raw}) raises {type(exc).__name__}: {exc}"))
+                continue
             want = m.group_get(g, raw)
             if got != want:
                 diffs.append(("group-view", f"{label}: group {g['name']} value(raw={raw}) {got:#x}, model {want:#x}"))
@@ -329,6 +342,8 @@ class Run:
             label = f"step {k} {name}"
             if name == "reg_set":
                 r = layout["regs"][op["reg"] % len(layout["regs"])]
+                if (m.group_of.get(r["uid"]) or {}).get("alt_widths"):
+                    continue
                 pv, iv = value_of(op["val"], r["width"])
                 fits = 0 <= iv < (1 << r["width"])
                 raw = bool(op.get("raw"))
@@ -344,6 +359,8 @@ class Run:
                 if not layout.get("groups"):
                     continue
                 g = layout["groups"][op["group"] % len(layout["groups"])]
+                if g.get("alt_widths"):
+                    continue
                 w = m.group_width(g)
                 pv, iv = value_of(op["val"], w)
                 fits = 0 <= iv < (1 << w)
@@ -356,6 +373,67 @@ class Run:
                     changes += 1
                 elif res == "ok":
                     self.resync(obj, m)
+            elif name == "alt_set":
+                cands = [g for g in layout.get("groups", []) if g.get("alt_widths")]
+                if not cands:
+                    continue
+                g = cands[op["group"] % len(cands)]
+                total = m.group_width(g)
+                w = m.leaf[g["sub_regs"][0]]["width"]
+                alts = sorted(g["alt_widths"])
+                target = (alts + [total])[op["which"] % (len(alts) + 1)]
+                # a value whose byte count selects `target`: larger than the next smaller alternative, fitting `target`
+                lower = max([a for a in alts if a < target], default=0)
+                kind = op["val"][0]
+                if kind in ("max", "pow", "pow1", "big"):
+                    v = (1 << target) - 1 - (op["val"][1] % 3)
+                elif kind in ("bit", "one", "zero"):
+                    v = 1 << (target - 1 - (op["val"][1] % 8))
+                else:
+                    v = (op["val"][1] * 0x9E3779B97F4A7C15 + 1) % (1 << target)
+                    v |= 1 << (lower + (op["val"][1] % max(1, target - lower)))
+                # the width is selected by the value's byte count, separately for the stored (possibly byte-reversed)
+                # and the external view; only values whose top and bottom byte (within `target`) are both non-zero
+                # select the same width in both views - anything else is not well defined and is not judged
+                v |= 1
+                if v < (1 << (target - 8)):
+                    v |= 1 << (target - 1 - (op["val"][1] % 8))
+                nbytes = max(1, (v.bit_length() + 7) // 8)
+                A = next((a for a in alts if nbytes <= a // 8), total)
+                greg = find_reg(obj, g["uid"])
+                label += f"({g['name']}, {v:#x}: {nbytes} bytes -> width {A} of {alts}+[{total}])"
+                try:
+                    for u in g["sub_regs"]:  # (writing 0 to the group selects the smallest width and clears only that part)
+                        find_reg(obj, u).set_value(0, raw=True)
+                        m.val[u] = 0
+                    greg.set_value(v, raw=False)
+                    x = bswap(v, A // 8) if g.get("reversed") else v
+                    for j, u in enumerate(g["sub_regs"][: A // w]):
+                        pos = A - (j + 1) * w if g.get("reverse_subregs_order") else j * w
+                        m.val[u] = (x >> pos) & ((1 << w) - 1)
+                    back = greg.get_value(raw=False)
+                    if back != v:
+                        self.violation("alternative-width", "read-back", f"{label}: reads back {back:#x}")
+                    nb = len(greg.get_bytes_value(raw=False))
+                    if nb != A // 8:
+                        self.violation("alternative-width", "bytes-view-length", f"{label}: bytes view has {nb} bytes, the value selects the {A}-bit width")
+                    hx = greg.get_hex_value(raw=False)
+                    digits = len(hx[2:] if hx.startswith("0x") else hx)
+                    if digits != A // 4:
+                        self.violation("alternative-width", "hex-view-length", f"{label}: hex view has {digits} digits, the value selects the {A}-bit width")
+                    changes += 1
+                    for site, msg in compare(obj, m, f"after {label}"):
+                        self.violation("alternative-width", "placement:" + site, msg)
+                    # leave the group zeroed: generic operations do not predict values of alternative-width groups
+                    for u in g["sub_regs"]:
+                        find_reg(obj, u).set_value(0, raw=True)
+                        m.val[u] = 0
+                except R.SPSDKError as exc:
+                    self.violation("alternative-width", "rejected", f"{label}: a value that fits was rejected: {exc}")
+                    obj = self.rebuild(layout, m)
+                except Exception as exc:  # pylint: disable=broad-except
+                    self.violation("undocumented-exception", f"alt_set:{type(exc).__name__}", f"{label}: raised {type(exc).__name__}: {exc}")
+                    obj = self.rebuild(layout, m)
             elif name in ("bf_set", "bf_enum"):
                 cands = [r for r in layout["regs"] if r.get("bitfields")]
                 if not cands:
@@ -612,6 +690,11 @@ def gen_layout(rng: random.Random) -> dict:
                 g["sub_regs"].append(r["uid"])
                 offset += w // 8
                 ri += 1
+            total = n * w
+            if n >= 3 and rng.random() < 0.4 and not any(r.get("bitfields") for r in regs[-n:]):
+                choices = [k * w for k in range(1, n) if (k * w) % 8 == 0]
+                g["alt_widths"] = sorted(rng.sample(choices, min(len(choices), rng.choice([1, 1, 2]))))
+                g["reverse_subregs_order"] = False  # as in the shipped specifications (ROTKH / RKTH groups)
             groups.append(g)
             gi += 1
         else:
@@ -640,12 +723,14 @@ def gen_val(rng: random.Random) -> list:
 
 
 def gen_op(rng: random.Random) -> dict:
-    name = rng.choice(["reg_set"] * 5 + ["group_set"] * 3 + ["bf_set"] * 6 + ["bf_enum"] * 4 + ["reg_reset", "reset_all"] + ["export_parse"] * 2 + ["config_roundtrip"] * 2 + ["query"] * 5)
+    name = rng.choice(["reg_set"] * 5 + ["group_set"] * 3 + ["alt_set"] * 2 + ["bf_set"] * 6 + ["bf_enum"] * 4 + ["reg_reset", "reset_all"] + ["export_parse"] * 2 + ["config_roundtrip"] * 2 + ["query"] * 5)
     o: dict = {"op": name}
     if name == "reg_set":
         o.update(reg=rng.randrange(64), val=gen_val(rng), raw=rng.random() < 0.5)
     elif name == "group_set":
         o.update(group=rng.randrange(8), val=gen_val(rng), raw=rng.random() < 0.5)
+    elif name == "alt_set":
+        o.update(group=rng.randrange(8), which=rng.randrange(8), val=gen_val(rng))
     elif name == "bf_set":
         o.update(reg=rng.randrange(64), bf=rng.randrange(64), val=gen_val(rng), raw=rng.random() < 0.3)
     elif name == "bf_enum":
